@@ -61,8 +61,11 @@ CHECKS = {
         text="Theorems over all tables, hosts and paths on model/ServiceMap.v (props/C04.v: declarative route_spec incl. uniqueness, "
              "independence of sort/tie/map order and of table order, history-freedom over all command histories incl. restarts, port "
              "ignored incl. IPv6 literals); correspondence: random colliding tables deployed in three command orders (shuffled, with "
-             "redeploys/removals, through a restart) and queried through the real Router on a Host x path matrix, compared in the Coq kernel.",
-        note="No axioms. net.SplitHostPort and URL path decoding are modelled. Monitor = routing rule applied to the table read from the state file.",
+             "redeploys/removals, through a restart) and queried through the real Router on a Host x path matrix, compared in the Coq kernel. "
+             "Two monitors on the observed history alone: the routing rule against the table read from the state file (c04_ok) and against the "
+             "bindings AS COMMANDED by the successful deploys/removes (corr/C04cmd.c04_cmd_ok; link theorems props/C04cmd.v: the model's own "
+             "histories satisfy it, the commanded table is the model's table and satisfies route_spec).",
+        note="No axioms. net.SplitHostPort and URL path decoding are modelled. The commanded-table link is proved for histories of TLS-less deploys with at least one target, removes and restarts and requests over plain HTTP (what the C04 generator issues); the unrestricted form is refuted by a witness (a TLS request to a TLS-less service is answered 503).",
         technique="Coq proof (declarative spec, permutation/sortedness lemmas, invariant over histories) + kernel-evaluated correspondence", ref="§7 C04"),
     "C05": dict(
         text="Invariant proved over all command histories and both code variants on model/Seq.v (props/C05.v: unique owner of every "
@@ -97,7 +100,9 @@ CHECKS = {
         text="Theorems over all byte strings (html/template text escaper = byte-wise map, inertness, round trip, body = function of the escaped "
              "message) and over all states / command histories of model/Seq.v (stopped => 503-with-message or 200 on GET health, never forwarded; "
              "redeploys keep the pause state; stop/resume); tied to the router, pause controller, error-page middleware and html/template by a "
-             "kernel-evaluated correspondence run with byte-for-byte 503 bodies (built-in page read from internal/pages/503.html at run time).",
+             "kernel-evaluated correspondence run with byte-for-byte 503 bodies (built-in page read from internal/pages/503.html at run time); plus "
+             "directed scenarios in which requests are being HELD by a pause (half of them by a repeated pause) when the stop arrives: monitor "
+             "corr/C08held.c08_held_bad (each answered 503 with the rendered message / 200 for GET health, none forwarded or left to its pause timeout; forwarding again after resume).",
         note="No axioms. html/template modelled for the text context only; invalid UTF-8 in a stop message is coerced by Go's JSON encoder in the state file (handled explicitly); "
              "residue: /.well-known/acme-challenge/ paths on automatic-TLS root services are answered by autocert before any policy.",
         technique="Coq proof (per-byte case analysis, invariants over exec) + kernel-evaluated differential correspondence on a virtual clock", ref="§7 C08"),
@@ -128,7 +133,9 @@ CHECKS = {
     "C11": dict(
         text="Bisimulation theorem on model/Seq.v (props/C11.v): a restored state is observationally equivalent to the one that wrote the file and "
              "stays so under every continuation; correspondence: the same history run with and without a restart inserted at a random point on the "
-             "real router; monitor compares every later result, list, state file, probed set and request answer of the two runs.",
+             "real router - random pairs plus directed pairs (every kind of saved service state: running / paused / stopped / rollout targets with and "
+             "without a split / after rollout stop, x every follow-up command, restart just before the follow-up); monitor compares every later "
+             "result, list, state file, probed set and request answer of the two runs.",
         note="No axioms. Four repaired defects (D5 nil pause channel, D6 empty rollout balancer, D17 wildcard sub-path restore failure) kept as refuted lemmas on the pinned variant. "
              "JSON encoding is Go's (invalid UTF-8 in a stop message is replaced by U+FFFD: outside the generator, documented).",
         technique="Coq proof (bisimulation up to unobservable fields) + kernel-evaluated differential runs", ref="§7 C11"),
@@ -138,7 +145,11 @@ CHECKS = {
              "snapshot of services installed / state held inside the window of the oldest command in progress; with one command at a time it is the "
              "configuration before or after the command; it is current whenever no command is in progress; snapshot sections are serialised. Correspondence: "
              "at every snapshot:* yield of every command of random histories, and after every step of random and all enumerated schedules of two overlapping "
-             "commands, the state directory is copied and a fresh Router restored from it; monitor on those observations alone.",
+             "commands, the state directory is copied and a fresh Router restored from it; monitor on those observations alone. File-system "
+             "granularity: inotify event list of the state directory under the real scheduler (c12_fs_ok). Faults and crash leftovers (real files): "
+             "commands run under RLIMIT_FSIZE so that the snapshot's write fails part-way (EFBIG), a <state>.tmp left by an earlier crash lies in the "
+             "directory, restarts in between; monitor corr/C12fault.c12_fault_bad (always one complete snapshot; current after every command whose "
+             "write could succeed; previous-or-current after a failed write; a restart restores what the state file describes).",
         note="No axioms. Process-kill semantics only (no power loss / fsync ordering); crash points are the hook yields around the file-system calls. Pinned D7 (truncate, stale) "
              "and the one-instant form for >=3 overlapping commands kept as refuted witnesses from real traces.",
         technique="Coq proof (invariants over a trace acceptor) + crash-point enumeration on the real code, evaluated in the Coq kernel", ref="§7 C12"),
